@@ -1,7 +1,7 @@
 # High-precision (mpmath, 60 digits) oracle for the C20 observer. One batch per run.
 # in : JSON list of requests; out: JSON list of answers (strings of decimal numbers).
 import json, sys
-from mpmath import mp, mpf, sqrt, asin, atan2, exp, pi, floor, sin, cos
+from mpmath import mp, mpf, sqrt, asin, atan2, exp, pi, floor, sin, cos, tanh
 mp.dps = 60
 
 def F(x):  # exact value of a float64 given as hex string or number
@@ -22,8 +22,7 @@ def unproject(kind, scale, x, y):
     if kind == "pc":
         lat = y * pi / scale
     else:
-        k = exp(2 * pi / scale * y)
-        lat = asin((k - 1) / (k + 1))
+        lat = asin(tanh(pi / scale * y))   # = asin((k-1)/(k+1)), k = exp(2*pi*y/scale); defined for y = +-inf
     return [cos(lng)*cos(lat), sin(lng)*cos(lat), sin(lat)]
 def dist_edge(p, c, d):
     n = cross(c, d)
